@@ -590,7 +590,7 @@ func (f *Formatter) formatReturnStatement(stmt *ast.ReturnStatement) string {
 	buf.Reset()
 	buf.WriteString("return")
 	if stmt.ReturnExpression != nil {
-		if v := f.formatComment(stmt.ParenthesisLeadingComments, "", 0); v != "" {
+		if v := strings.TrimRight(f.formatComment(stmt.ParenthesisLeadingComments, " ", 0), " "); v != "" {
 			buf.WriteString(" " + v)
 		}
 		prefix := " "
@@ -606,7 +606,8 @@ func (f *Formatter) formatReturnStatement(stmt *ast.ReturnStatement) string {
 		// that drops infix operators and re-encodes literals.
 		buf.WriteString(f.formatExpression(stmt.ReturnExpression).String())
 		buf.WriteString(suffix)
-		if v := f.formatComment(stmt.ParenthesisTrailingComments, "", 0); v != "" {
+		// several comments are separated by a white space, like the comments of an expression
+		if v := strings.TrimRight(f.formatComment(stmt.ParenthesisTrailingComments, " ", 0), " "); v != "" {
 			buf.WriteString(" " + v)
 		}
 	} else {
